@@ -461,6 +461,40 @@ let run_solve_cmd lines =
             (string_of_nat r.r_polls) (if r.r_tie then "1" else "0") end
     end) lines
 
+(* ---------------------------------------------------------------- parallel protocol model *)
+let site_str = function
+  | SGetWorkload -> "get_workload" | SBestLb -> "best_lb" | SMaybeUpdateBest -> "maybe_update_best"
+  | SEnqueueCutset -> "enqueue_cutset" | SAbortSearch -> "abort_search" | SNotifyNodeFinished -> "notify_node_finished"
+let run_par_cmd lines =
+  let inst = ref None in
+  List.iter (fun l ->
+    if starts_with "I " l then inst := Some (parse_inst l)
+    else if starts_with "PS " l then begin
+      let ti = match !inst with Some t -> t | None -> failwith "no instance" in
+      let (cfgpart, chpart) = (match String.index_opt l '|' with
+        | Some i -> (String.sub l 0 i, String.sub l (i + 1) (String.length l - i - 1)) | None -> (l, "")) in
+      let c = mk_cur cfgpart in
+      let _par = next_b c in let threads = next_i c in let ctor = next_i c in
+      let flv = next_i c in let cache = next_b c in let fringe = next_i c in let width = next_n c in
+      let cutk = next_n c in let dom = next_b c in let hasprimal = next_b c in
+      let primal = if hasprimal then begin
+          let pv = next_z c in let plen = next_i c in
+          let p = List.init plen (fun _ -> let x = next_n c in let v = next_z c in { d_var = x; d_val = v }) in Some (pv, p) end
+        else None in
+      let sched = List.map (fun t -> nat_of_int (int_of_string t)) (tokens (" x " ^ chpart) |> List.tl) in
+      let cfg = tb_sconfig ti (flavour_of flv) cache (fringe <> 0) dom width cutk in
+      let r = tb_par_maximize cfg (nat_of_int 30000) (nat_of_int ctor) (nat_of_int threads) primal sched in
+      let tr = String.concat "," (List.map (fun (w, st) -> string_of_nat w ^ ":" ^ site_str st) r.pr_trace) in
+      let e = (match r.pr_end with PFinished -> "finished" | PDeadlock -> "deadlock" | POutOfFuel -> "steplimit") in
+      (match r.pr_end with
+       | PFinished ->
+          Printf.printf "P end=finished x=%s cv=%s bv=%s lb=%s ub=%s sol=%s explored=%s polls=%s crash=%s tie=%s trace=%s\n"
+            (if r.pr_exact then "1" else "0") (opt_str string_of_z r.pr_value) (opt_str string_of_z r.pr_value)
+            (string_of_z r.pr_lb) (string_of_z r.pr_ub) (opt_str dec_str r.pr_sol) (string_of_nat r.pr_explored)
+            (string_of_nat r.pr_polls) (if r.pr_crash then "1" else "0") (if r.pr_tie then "1" else "0") tr
+       | _ -> Printf.printf "P end=%s crash=%s tie=%s trace=%s\n" e (if r.pr_crash then "1" else "0") (if r.pr_tie then "1" else "0") tr)
+    end) lines
+
 (* ---------------------------------------------------------------- oracles (executable specification) *)
 (* `O` lines after an instance: `O opt` ; `O from k v nst s..` ; `O h k nst s..` ; `O replay v0? ...` *)
 let run_oracle_cmd lines =
@@ -505,5 +539,6 @@ let () =
   | "fringecheck" -> run_fringecheck_cmd lines Sys.argv.(3)
   | "mdd" -> run_mdd_cmd lines
   | "solve" -> run_solve_cmd lines
+  | "par" -> run_par_cmd lines
   | "oracle" -> run_oracle_cmd lines
   | _ -> prerr_endline "unknown command"; exit 2
